@@ -255,6 +255,45 @@ func init() {
 		Bounds:        map[string]interface{}{"quick": "NumDigits: every integer b with |b| < 2^150, both signs (bit lengths 0..150, table and fallback code); tableExp10(k) for k <= 200; Decimal.Reduce: up to 24 digits (uint64 loop and big loop); Context.Reduce: 5 digits, W=5, modes half_even/floor/up", "thorough": "NumDigits up to 1100 bits; Context.Reduce 9 digits, all modes"},
 		Outside:       []string{"integers beyond the stated bit length"},
 		RequireCovers: []string{"numdigits.negative", "numdigits.beyondtable", "tableexp10.fallback", "reduce.stripped", "reduce.zero"}}
+	checkDefs["C20"] = &CheckDef{Prop: "C20", Enable: []string{"C20."},
+		Instances: func(tier string) []Instance {
+			var out []Instance
+			thor := tier == "thorough"
+			base := p("Pmin", 1, "regime", 0, "traps", "zero", "mode", "half_even")
+			kw := func(k, w int) (int, int) {
+				if thor {
+					return k + 1, w + 1
+				}
+				return k, w
+			}
+			for _, o := range []struct {
+				op   string
+				k, w int
+			}{{"round", 4, 5}, {"add", 2, 2}, {"sub", 2, 2}, {"mul", 3, 3}, {"quo", 2, 2}, {"quantize", 3, 3}, {"rti_exact", 4, 4}} {
+				k, w := kw(o.k, o.w)
+				out = append(out, inst("VerifModes", 6, base, "op", o.op, "K", k, "Kd", 1, "W", w))
+			}
+			modes := []string{"half_even", "floor"}
+			if thor {
+				modes = allModes
+			}
+			for _, m := range modes {
+				b := p("Pmin", 1, "regime", 0, "traps", "zero", "mode", m, "Kd", 1)
+				for _, r := range [][2]string{{"commute", "add"}, {"commute", "mul"}, {"sub_is_add_neg", "sub"}, {"mirror", "add"}, {"mirror", "sub"}, {"mirror", "mul"}, {"mirror", "quo"}, {"mirror", "round"},
+					{"scale", "add"}, {"scale", "sub"}, {"scale", "mul"}, {"scale", "quo"}, {"scale", "rem"}, {"monotone", "round"}} {
+					k, w := kw(2, 2)
+					if r[1] == "round" || r[1] == "mul" {
+						k++
+					}
+					out = append(out, inst("VerifRelations", 3, b, "rel", r[0], "op", r[1], "K", k, "W", w))
+				}
+			}
+			return out
+		},
+		PathModels: false, Stubs: stubsLevelA, Assumptions: assumeCommon,
+		Bounds:        map[string]interface{}{"quick": "eight modes run on the same symbolic operands in one path space: Round K=4/W=5, Add/Sub K=2/W=2, Mul K=3/W=3, Quo K=2 (divisor 1..9), Quantize K=3, RoundToIntegralExact K=4; two-input relations at K=2..3 under half_even and floor", "thorough": "one more digit and exponent step; relations under all modes"},
+		Outside:       []string{"larger coefficients", "results that are NaN (Quantize invalid) or hit a system limit are skipped", "an exact zero sum may differ in sign between round-floor and the other modes (GDA rule, asserted in C01/C08)"},
+		RequireCovers: []string{"modes.exact", "modes.inexact"}}
 	checkDefs["C15"] = &CheckDef{Prop: "C15", Enable: []string{"C15."},
 		Instances: func(tier string) []Instance {
 			K := 6
